@@ -200,6 +200,18 @@ def check_can_recycle_compares_roles(ctx, consequence_fmt: str):
                 compared[params[0]] = holds[names[0]]
     for p, getter in (("inp_paths", "inp_paths"), ("env_deps", "env_deps"), ("out_paths", "out_paths"), ("vol_paths", "vol_paths")):
         ctx.check(compared.get(p) == getter, cr.fq, f"{p} compared with its own stored counterpart", consequence_fmt.format(p=p), "compared")
+    # the stored counterpart is the *initial* declaration: `dynamic=False` excludes what the step amended while running
+    for c in calls_in(cr.node):
+        if callee_name(c) in ("inp_paths", "env_deps", "out_paths", "vol_paths") and isinstance(c.func, ast.Attribute) and ast.unparse(c.func.value) == "self":
+            k = [kw for kw in c.keywords if kw.arg == "dynamic"]
+            ctx.check(bool(k) and ast.unparse(k[0].value) == "False", cr.fq, f"{ast.unparse(c)} selects the initial declaration", consequence_fmt.format(p=callee_name(c)) + " (amended paths are compared with a declaration that cannot contain them: a step that amended anything is never recycled, or the reverse)", "dynamic=False")
+    pf = ctx.prog.func("step.Step._paths")
+    sel = None
+    for n in ast.walk(pf.node):
+        if isinstance(n, ast.If) and ast.unparse(n.test) == "dynamic" and n.orelse:
+            body, orelse = " ".join(ast.unparse(x) for x in n.body), " ".join(ast.unparse(x) for x in n.orelse)
+            sel = ("JOIN dynamic_dep" in body and "NOT EXISTS" not in body, "NOT EXISTS" in orelse and "dynamic_dep" in orelse)
+    ctx.check(sel == (True, True), pf.fq, "dynamic=True joins dynamic_dep, dynamic=False excludes it", "the initial/amended selector of Step._paths no longer separates the two kinds of paths", "JOIN / NOT EXISTS")
 
 
 def check_tree_adopts_all_detached(ctx, consequence: str):
